@@ -47,6 +47,10 @@ func (self *ListRange) CheckListPreConstraints(r *ListRequest) (bool, error) {
 	}
 	if self.Selector.PathMatches(r.Base, r.Selection.Path) {
 		if r.First {
+			if self.EndRow != -1 && self.StartRow >= self.EndRow {
+				// an empty or inverted window holds no row (the end row is exclusive)
+				return false, nil
+			}
 			r.SetStartRow(self.StartRow)
 			r.SetRow(self.StartRow)
 		} else if r.Row64 >= self.EndRow && self.EndRow != -1 {
